@@ -1094,3 +1094,326 @@ Proof.
     eapply (rb_only_version repaired eq_refl ops w1 b (cur w)); eauto. }
   split; [assumption|]. rewrite Hcur. apply Hj.
 Qed.
+
+(* ================================================================== resolved content
+   K: while no operator edit happened since the journal's upgrade began, the tree differs from the
+   tree at that time (ghost g_fs0) at most on the artifact paths of that upgrade. *)
+Definition kx (w : world) := (g_fs0 w, g_clean w).
+
+Lemma kx_of_frame w w' : frame w' = frame w -> kx w' = kx w.
+Proof. unfold frame, kx. intros H. injection H as _ _ _ _ -> ->. reflexivity. Qed.
+
+Lemma swap_artifact_other w src p m w' b :
+  swap_artifact w src p m = (w', b) -> forall q, q <> p -> fs w' q = fs w q.
+Proof.
+  unfold swap_artifact. intros H q Hq.
+  destruct src; [destruct (obst w p)|]; [inv H; auto| |inv H; auto].
+  destruct (new_mode m); [|inv H; auto].
+  destruct (fs w p) as [[| |]|]; inv H; simpl; auto; now apply upd_other.
+Qed.
+
+Lemma swap_loop_other arts : forall w w' b,
+  swap_loop w arts = (w', b) -> forall q, ~ In q (map a_path arts) -> fs w' q = fs w q.
+Proof.
+  induction arts as [|a r IH]; simpl; intros w w' b H q Hq; [inv H; auto|].
+  destruct (swap_artifact _ _ _ _) as [w2 ok] eqn:E.
+  pose proof (swap_artifact_other _ _ _ _ _ _ E q) as E1. rewrite fs_set_phase in E1.
+  destruct ok.
+  - rewrite (IH _ _ _ H q) by tauto. rewrite fs_set_phase. apply E1. intros ->. tauto.
+  - inv H. apply E1. intros ->. tauto.
+Qed.
+
+Lemma restore_loop_other d es : forall w w' b,
+  restore_loop w d es = (w', b) -> forall q, ~ In q (map e_path es) -> fs w' q = fs w q.
+Proof.
+  induction es as [|e r IH]; simpl; intros w w' b H q Hq; [inv H; auto|].
+  destruct (e_kind e).
+  - rewrite (IH _ _ _ H q) by tauto. simpl. apply upd_other. intros ->. tauto.
+  - rewrite (IH _ _ _ H q) by tauto. simpl. apply upd_other. intros ->. tauto.
+  - destruct (swap_artifact _ _ _ _) as [w1 ok] eqn:E.
+    pose proof (swap_artifact_other _ _ _ _ _ _ E q) as E1.
+    destruct ok; [rewrite (IH _ _ _ H q) by tauto|inv H]; apply E1; intros ->; tauto.
+Qed.
+
+(* the paths a rollback from w can touch *)
+Definition rb_scope (w : world) (ps : list path) : Prop :=
+  forall k d nv es, option_map j_from (jr w) = Some k -> snaps w k = Some d -> s_meta d = Some (nv, es) ->
+  forall e, In e es -> In (e_path e) ps.
+
+Lemma rb_scope_frame4 w w' ps : frame4 w' = frame4 w -> rb_scope w ps -> rb_scope w' ps.
+Proof. unfold rb_scope, frame4. intros H. injection H as -> _ -> _. auto. Qed.
+
+Lemma rollback_other v F w w' r ps :
+  rollback_flow v F w = (w', r) -> rb_scope w ps -> forall q, ~ In q ps -> fs w' q = fs w q.
+Proof.
+  unfold rollback_flow. intros H Hs q Hq.
+  destruct (jr w) as [j|] eqn:Ej; [|now inv H].
+  destruct (snaps w (j_from j)) as [d|] eqn:Ed; [|now inv H].
+  destruct (s_meta d) as [[nv es]|] eqn:Em; [|now inv H].
+  destruct (seq_oc _); try (now inv H).
+  destruct (restore_loop _ _ _) as [w2 ok] eqn:Er.
+  assert (R : fs w2 q = fs w q).
+  { rewrite (restore_loop_other _ _ _ _ _ Er q); [reflexivity|].
+    intros Hin. apply in_map_iff in Hin as (e & <- & He). apply Hq.
+    apply in_rev in He. eapply (Hs (j_from j)); eauto. rewrite Ej. reflexivity. }
+  destruct ok; simpl in H; [|inv H; now rewrite fs_set_phase].
+  destruct (if nv then vpp_seq F 10 else OGo);
+    [destruct (seq_oc _); [destruct (f_hr F)| |]| |];
+    inv H; rewrite ?fs_set_phase, ?fs_restore_ginst, ?fs_restore_curm; assumption.
+Qed.
+
+Lemma auto_rollback_other v F w w' r ps :
+  auto_rollback v F w = (w', r) -> rb_scope w ps ->
+  (forall q, ~ In q ps -> fs w' q = fs w q) /\ kx w' = kx w.
+Proof.
+  unfold auto_rollback. intros H Hs.
+  destruct (crash_at F 52); [inv H; auto|].
+  destruct (rollback_flow v F w) as [w1 rr] eqn:E.
+  pose proof (rollback_other _ _ _ _ _ _ E Hs) as Ho.
+  pose proof (kx_of_frame _ _ (rollback_frame _ _ _ _ _ E)) as Hk.
+  destruct rr; inv H; split; auto; try (intros; rewrite fs_set_phase; auto).
+  rewrite <- Hk. apply kx_of_frame, frame_set_phase.
+Qed.
+
+Lemma post_swap_other v T F from w7 w' r ps :
+  post_swap v T F from w7 = (w', r) -> rb_scope w7 ps ->
+  (forall q, ~ In q ps -> fs w' q = fs w7 q) /\ kx w' = kx w7.
+Proof.
+  unfold post_swap. intros H Hs.
+  assert (Hauto : forall wa, frame wa = frame w7 -> fs wa = fs w7 -> auto_rollback v F wa = (w', r) ->
+    (forall q, ~ In q ps -> fs w' q = fs w7 q) /\ kx w' = kx w7).
+  { intros wa Hf Hfs Ha.
+    destruct (auto_rollback_other _ _ _ _ _ ps Ha) as [A1 A2].
+    { eapply rb_scope_frame4; [|exact Hs]. now apply frame_frame4. }
+    split; [intros q Hq; rewrite (A1 q Hq); now rewrite Hfs|]. rewrite A2. now apply kx_of_frame. }
+  destruct (if needs_vpp (t_arts T) then vpp_seq F 0 else OGo);
+    [|apply (Hauto _ (frame_set_phase _ _) (fs_set_phase _ _) H)|inv H; auto].
+  destruct (seq_oc _);
+    [|apply (Hauto _ (frame_set_phase _ _) (fs_set_phase _ _) H)|inv H; auto].
+  assert (K8 : kx (set_phase w7 PDaemonStarted) = kx w7) by apply kx_of_frame, frame_set_phase.
+  destruct (crash_at F 31); [inv H; split; [intros; now rewrite fs_set_phase|assumption]|].
+  destruct (f_ha F); simpl in H.
+  2:{ destruct (crash_at F 53); [inv H; split; [intros; now rewrite fs_set_phase|assumption]|].
+      apply (Hauto _ (eq_trans (frame_set_phase _ _) (frame_set_phase _ _))
+                     (eq_trans (fs_set_phase _ _) (fs_set_phase _ _)) H). }
+  destruct (crash_at F 32); [inv H; split; [intros; now rewrite fs_set_phase|assumption]|].
+  destruct (crash_at F 35); [inv H; split; [intros; simpl; now rewrite fs_set_phase|exact K8]|].
+  assert (F9 : forall q, fs (set_phase (set_ginst (set_cur (set_phase w7 PDaemonStarted) (t_to T)) (t_to T)) PCompleted) q = fs w7 q).
+  { intros q. rewrite fs_set_phase. simpl. now rewrite fs_set_phase. }
+  assert (K9 : kx (set_phase (set_ginst (set_cur (set_phase w7 PDaemonStarted) (t_to T)) (t_to T)) PCompleted) = kx w7).
+  { rewrite <- K8. apply kx_of_frame. rewrite frame_set_phase. reflexivity. }
+  destruct (crash_at F 33); [inv H; split; [intros; apply F9|exact K9]|].
+  destruct (crash_at F 34); inv H; (split; [intros; unfold prune; simpl; apply F9|exact K9]).
+Qed.
+
+Lemma do_snapshot_scope v w from arts w1 :
+  do_snapshot v w from arts = (w1, true) ->
+  exists d nv es, snaps w1 from = Some d /\ s_meta d = Some (nv, es) /\
+                  forall e, In e es -> In (e_path e) (map a_path arts).
+Proof.
+  intros H. apply do_snapshot_spec in H as (_ & _ & _ & _ & _ & _ & S7).
+  destruct (S7 eq_refl) as (d & nv & es & D1 & D2 & [D3 _] & _).
+  exists d, nv, es. splits; auto. intros e He. destruct (D3 e He) as (f & Hin & _).
+  unfold base_of in Hin. apply in_map_iff in Hin as (a & Ea & Ha). inv Ea.
+  apply in_map_iff. exists a. auto.
+Qed.
+
+Lemma apply_flow_other v T F w w' r :
+  apply_flow v T F w = (w', r) ->
+  (forall q, ~ In q (map a_path (t_arts T)) -> fs w' q = fs w q) /\ kx w' = (fs w, true).
+Proof.
+  unfold apply_flow. intros H.
+  set (w0 := set_gfs0 _ _ _) in H.
+  destruct (crash_at F 25); [inv H; split; [reflexivity|reflexivity]|].
+  destruct (do_snapshot v w0 (cur w) (t_arts T)) as [w1 ok] eqn:Es.
+  pose proof Es as Es'. apply do_snapshot_spec in Es' as (S1 & S2 & _ & _ & _ & _ & _).
+  assert (K1 : kx w1 = (fs w, true)).
+  { unfold do_snapshot in Es. destruct (snap_loop _ _ _ _) as [b [l|]]; inv Es; reflexivity. }
+  destruct ok; simpl in H; [|inv H; split; [intros; now rewrite S2|assumption]].
+  destruct (do_snapshot_scope _ _ _ _ _ Es) as (d & nv & es & D1 & D2 & D3).
+  set (w2 := set_phase (set_gbase w1 _) PSnapshotDone) in H.
+  assert (Hfs2 : fs w2 = fs w) by (unfold w2; rewrite fs_set_phase; simpl; exact S2).
+  assert (K2 : kx w2 = (fs w, true)).
+  { unfold w2. rewrite <- K1. unfold kx, set_phase. simpl. destruct (jr w1); reflexivity. }
+  assert (Sc2 : rb_scope w2 (map a_path (t_arts T))).
+  { unfold rb_scope, w2, set_phase. simpl. rewrite S1. simpl. intros k d0 nv0 es0 Hk Hd Hm e He.
+    inv Hk. rewrite D1 in Hd. inv Hd. rewrite D2 in Hm. inv Hm. now apply D3. }
+  assert (Hexit : forall wx, frame wx = frame w2 -> fs wx = fs w2 ->
+     (forall q, ~ In q (map a_path (t_arts T)) -> fs wx q = fs w q) /\ kx wx = (fs w, true)).
+  { intros wx Hf Hx. split; [intros; now rewrite Hx, Hfs2|]. rewrite (kx_of_frame _ _ Hf). exact K2. }
+  destruct (crash_at F 26); [inv H; now apply Hexit|].
+  destruct (t_hook_ok T); simpl in H; [|inv H; now apply Hexit].
+  destruct (seq_oc _); try (inv H; apply Hexit; [apply frame_set_phase|apply fs_set_phase]).
+  destruct (seq_oc _); try (inv H; apply Hexit; [now rewrite !frame_set_phase|now rewrite !fs_set_phase]).
+  destruct (crash_at F 29); [inv H; apply Hexit; [now rewrite !frame_set_phase|now rewrite !fs_set_phase]|].
+  destruct (swap_loop _ _) as [w7 sok] eqn:Esw.
+  pose proof (swap_loop_other _ _ _ _ Esw) as O7. simpl in O7. rewrite !fs_set_phase in O7.
+  apply swap_loop_frame in Esw as (F7 & _ & _). rewrite frame_set_obst, !frame_set_phase in F7.
+  assert (Sc7 : rb_scope w7 (map a_path (t_arts T))).
+  { eapply rb_scope_frame4; [|exact Sc2]. now apply frame_frame4. }
+  assert (K7 : kx w7 = (fs w, true)) by (rewrite (kx_of_frame _ _ F7); exact K2).
+  assert (O7' : forall q, ~ In q (map a_path (t_arts T)) -> fs w7 q = fs w q).
+  { intros q Hq. rewrite (O7 q Hq). now rewrite Hfs2. }
+  destruct sok; simpl in H.
+  - destruct (post_swap_other _ _ _ _ _ _ _ _ H Sc7) as [P1 P2].
+    split; [intros q Hq; rewrite (P1 q Hq); auto|]. now rewrite P2.
+  - destruct (crash_at F 51); [inv H; auto|].
+    destruct (auto_rollback_other _ _ _ _ _ (map a_path (t_arts T)) H) as [A1 A2].
+    { eapply rb_scope_frame4; [|exact Sc7]. apply frame_frame4, frame_set_phase. }
+    split; [intros q Hq; rewrite (A1 q Hq), fs_set_phase; auto|].
+    rewrite A2. rewrite <- K7. apply kx_of_frame, frame_set_phase.
+Qed.
+
+Definition K (w : world) : Prop :=
+  match g_base w with
+  | Some (true, base, _) =>
+      g_clean w = true ->
+      (forall q, ~ In q (map fst base) -> fs w q = g_fs0 w q) /\
+      (forall p f, In (p, f) base -> g_fs0 w p = f)
+  | _ => True
+  end.
+
+Lemma Inv_scope v w base gi : Inv v w -> g_base w = Some (true, base, gi) -> rb_scope w (map fst base).
+Proof.
+  unfold Inv. intros Hi Hg. rewrite Hg in Hi. destruct Hi as (fr & d & nv & es & H1 & H2 & H3 & [E1 _] & _).
+  intros k d0 nv0 es0 Hk Hd Hm e He. rewrite H1 in Hk. inv Hk. rewrite H2 in Hd. inv Hd. rewrite H3 in Hm. inv Hm.
+  destruct (E1 e He) as (f & Hin & _). apply in_map_iff. exists (e_path e, f). auto.
+Qed.
+
+Lemma step_K v w o : Inv v w -> K w -> K (fst (step v w o)).
+Proof.
+  intros Hi Hk. destruct o as [T Q F|F| |p f]; simpl.
+  - destruct (apply v T Q F w) as [w1 r1] eqn:Ea. simpl. unfold apply in Ea.
+    destruct (admits T Q w) eqn:Ead; [|inv Ea; exact Hk].
+    destruct (apply_flow_other _ _ _ _ _ _ Ea) as [O1 O2].
+    destruct (apply_flow_spec _ _ _ _ _ _ Ea (admits_nodup _ _ _ Ead)) as (_ & _ & _ & _ & P5).
+    unfold K. destruct (g_base w1) as [[[[] b] gi]|] eqn:Eg; auto.
+    destruct (P5 _ _ eq_refl) as [-> _]. unfold kx in O2. injection O2 as -> _. intros _.
+    assert (Hm : map fst (base_of w (t_arts T)) = map a_path (t_arts T)).
+    { unfold base_of. rewrite map_map. reflexivity. }
+    rewrite Hm. split; [exact O1|].
+    intros p f Hin. unfold base_of in Hin. apply in_map_iff in Hin as (a & Ea' & _). now inv Ea'.
+  - destruct (rollback_flow v F w) as [w1 rr] eqn:Er.
+    assert (K w1).
+    { pose proof (rollback_frame _ _ _ _ _ Er) as Hf.
+      unfold K. rewrite (gbase_of_frame _ _ Hf).
+      destruct (g_base w) as [[[[] b] gi]|] eqn:Eg; auto.
+      pose proof (kx_of_frame _ _ Hf) as Hkx. unfold kx in Hkx. injection Hkx as -> ->.
+      unfold K in Hk. rewrite Eg in Hk. intros Hc. destruct (Hk Hc) as [K1 K2]. split; [|exact K2].
+      intros q Hq. rewrite (rollback_other _ _ _ _ _ _ Er (Inv_scope _ _ _ _ Hi Eg) q Hq). auto. }
+    destruct rr; exact H.
+  - exact Hk.
+  - unfold K. simpl. destruct (g_base w) as [[[[] b] gi]|]; auto. discriminate.
+Qed.
+
+Lemma K_init c f : K (init_world c f).
+Proof. exact I. Qed.
+
+Lemma exec_IK v : v_mode_fix v = true -> forall ops w, Inv v w -> K w ->
+  Inv v (exec v w ops) /\ K (exec v w ops).
+Proof.
+  intros Hv. induction ops as [|o ops IH]; simpl; intros w Hi Hk; [auto|].
+  apply IH; [|now apply step_K].
+  destruct (step v w o) as [w1 [r1 m1]] eqn:Es. simpl. now destruct (step_spec _ _ _ _ _ _ Es Hi Hv).
+Qed.
+
+Lemma resolve_ext f g : (forall q, f q = g q) -> forall n p, resolve f p n = resolve g p n.
+Proof.
+  intros H. induction n as [|n IH]; simpl; intros p; [reflexivity|].
+  rewrite H. destruct (g p) as [[| |]|]; auto.
+Qed.
+
+Lemma ocontent_eqb_refl a : ocontent_eqb a a = true.
+Proof. destruct a; simpl; [apply N.eqb_refl|reflexivity]. Qed.
+
+(* K + restored artifact paths = the whole tree is the tree at the beginning of the upgrade *)
+Lemma restored_whole_tree w base gi :
+  g_base w = Some (true, base, gi) -> g_clean w = true -> K w ->
+  (forall p f, In (p, f) base -> fs w p = f) -> forall q, fs w q = g_fs0 w q.
+Proof.
+  intros Hg Hc Hk Hr q. unfold K in Hk. rewrite Hg in Hk. destruct (Hk Hc) as [K1 K2].
+  destruct (in_dec N.eq_dec q (map fst base)) as [Hin|Hni]; [|now apply K1].
+  apply in_map_iff in Hin as ([p f] & <- & Hin). simpl. rewrite (Hr p f Hin). symmetry. eauto.
+Qed.
+
+Lemma mon_resolved_ok w base gi :
+  g_base w = Some (true, base, gi) -> K w -> (forall p f, In (p, f) base -> fs w p = f) ->
+  mon_resolved w <> MonMixed.
+Proof.
+  intros Hg Hk Hr. unfold mon_resolved. rewrite Hg. destruct (g_clean w) eqn:Hc; [|discriminate].
+  assert (forallb (fun pf => ocontent_eqb (resolve (fs w) (fst pf) 16) (resolve (g_fs0 w) (fst pf) 16)) base = true) as ->;
+    [|discriminate].
+  apply forallb_forall. intros pf _.
+  rewrite (resolve_ext (fs w) (g_fs0 w) (restored_whole_tree _ _ _ Hg Hc Hk Hr)). apply ocontent_eqb_refl.
+Qed.
+
+Lemma step_resolved v w o w' r m :
+  v_mode_fix v = true -> Inv v w -> K w -> step v w o = (w', (r, m)) -> step_res o w' r <> MonMixed.
+Proof.
+  intros Hv Hi Hk Hs.
+  assert (Hk' : K w') by (pose proof (step_K v w o Hi Hk) as X; now rewrite Hs in X).
+  destruct o as [T Q F|F| |p f]; simpl in *; try discriminate.
+  - destruct (apply v T Q F w) as [w1 r1] eqn:Ea. inv Hs. destruct r; try discriminate.
+    unfold apply in Ea. destruct (admits T Q w) eqn:Ead; [|discriminate].
+    destruct (apply_flow_spec _ _ _ _ _ _ Ea (admits_nodup _ _ _ Ead)) as (_ & _ & P3 & _).
+    destruct (P3 eq_refl) as (Q1 & Q2 & _).
+    eapply mon_resolved_ok; eauto. intros p f Hin. rewrite (Q2 p f Hin). now apply normf_fixed.
+  - destruct (rollback_flow v F w) as [w1 rr] eqn:Er.
+    destruct (rollback_step_spec _ _ _ _ _ Er Hi Hv) as (_ & R2 & R3).
+    destruct rr; inv Hs; try discriminate.
+    destruct (g_base w) as [[[[] b] gi]|] eqn:Eg.
+    + destruct (R3 eq_refl) as [_ R4]. eapply mon_resolved_ok; [exact R2|assumption|]. eapply R4; reflexivity.
+    + unfold mon_resolved. rewrite R2. discriminate.
+    + unfold mon_resolved. rewrite R2. discriminate.
+Qed.
+
+Lemma reachable_resolved c f ops o w' r m :
+  step repaired (exec repaired (init_world c f) ops) o = (w', (r, m)) -> step_res o w' r <> MonMixed.
+Proof.
+  destruct (exec_IK repaired eq_refl ops _ (Inv_init repaired c f) (K_init c f)) as [Hi Hk].
+  now apply (step_resolved repaired _ o w' r m eq_refl Hi Hk).
+Qed.
+
+(* rollback attempts only: the whole tree, hence what every path resolves to, is back *)
+Lemma rb_only_K v : forall ops w, rb_only ops -> Inv v w -> K w -> v_mode_fix v = true ->
+  forall w' out, In (w', out) (run v w ops) -> K w' /\ kx w' = kx w /\ g_base w' = g_base w.
+Proof.
+  induction ops as [|o ops IH]; simpl; intros w Hrb Hi Hk Hv w' out Hin; [contradiction|].
+  inv Hrb. destruct (step v w o) as [w1 [r1 m1]] eqn:Es.
+  assert (N : Inv v w1 /\ K w1 /\ kx w1 = kx w /\ g_base w1 = g_base w).
+  { split; [now destruct (step_spec _ _ _ _ _ _ Es Hi Hv)|].
+    split; [pose proof (step_K v w o Hi Hk) as X; now rewrite Es in X|].
+    destruct o as [T Q F|F| |p0 f0]; try contradiction; simpl in Es.
+    - destruct (rollback_flow v F w) as [w2 rr] eqn:Er.
+      pose proof (rollback_frame _ _ _ _ _ Er) as Hf.
+      destruct rr; inv Es; split; try (now apply kx_of_frame); now apply gbase_of_frame.
+    - inv Es. auto. }
+  destruct N as (N1 & N2 & N3 & N4).
+  destruct Hin as [Heq|Hin]; [inv Heq; auto|].
+  destruct (IH w1 H2 N1 N2 Hv w' out Hin) as (A & B & C). splits; auto; congruence.
+Qed.
+
+Lemma crash_then_rollback_resolved c f ops0 T Q F w1 r1 b gi :
+  let w := exec repaired (init_world c f) ops0 in
+  apply repaired T Q F w = (w1, r1) -> admits T Q w = true ->
+  g_base w1 = Some (true, b, gi) ->
+  forall ops, rb_only ops ->
+  forall w' r m, In (w', (r, m)) (run repaired w1 ops) -> r = RRbOk ->
+  (forall q, fs w' q = fs w q) /\ (forall p n, resolve (fs w') p n = resolve (fs w) p n).
+Proof.
+  intros w Ha Had Hg ops Hrb w' r m Hin Hr.
+  destruct (exec_IK repaired eq_refl ops0 _ (Inv_init repaired c f) (K_init c f)) as [Hi Hk]. fold w in Hi, Hk.
+  pose proof Ha as Ha'. unfold apply in Ha'. rewrite Had in Ha'.
+  destruct (apply_flow_spec _ _ _ _ _ _ Ha' (admits_nodup _ _ _ Had)) as (I1 & _ & _ & _ & P5).
+  destruct (P5 _ _ Hg) as [-> _].
+  destruct (apply_flow_other _ _ _ _ _ _ Ha') as [_ O2].
+  assert (K1 : K w1).
+  { pose proof (step_K repaired w (OpApply T Q F) Hi Hk) as X. simpl in X. now rewrite Ha in X. }
+  destruct (rb_only_K repaired ops w1 Hrb I1 K1 eq_refl w' (r, m) Hin) as (Kw' & Kx & Gb).
+  assert (Hall : forall q, fs w' q = fs w q).
+  { rewrite O2 in Kx. unfold kx in Kx. injection Kx as E1 E2.
+    intros q. rewrite <- E1.
+    apply (restored_whole_tree w' (base_of w (t_arts T)) gi); auto; [congruence|].
+    eapply (rb_only_restores repaired eq_refl ops w1 _ gi Hrb I1 Hg w' r m Hin Hr). }
+  split; [exact Hall|]. intros p n. now apply resolve_ext.
+Qed.
